@@ -118,6 +118,7 @@ static void dec_case(int which /* 0..3 = b64 variant index, 4 = hex */, const un
         r = sodium_hex2bin(out + 16, cap, (const char *) tbuf, len, ign, &bl, want_end ? &end : NULL);
     }
     if (m.ret == 0) n_accept++; else n_reject++;
+    if (len == 3 && text[0] == 'Q' && (text[2] == '=' || text[2] == 0xE9) && cap == 1) VF_SAMPLE_CASE(6, "%s text=%s ignore=%s capacity=%zu end-pointer=%s -> reference: ret %d, %zu bytes, end offset %zu", which < 4 ? "base642bin" : "hex2bin", vf_hex(text, len), ign ? (ign[0] ? (ign[0] == ':' ? "\":\"" : "\" \\n\"") : "\"\"") : "NULL", cap, want_end ? "given" : "NULL", m.ret, m.bin_len, m.end);
     if (len) n_nontriv++;
     snprintf(key, sizeof key, "%s/text=%s/ign=%d/cap=%zu/end=%d", which < 4 ? (which == 0 ? "base642bin-orig" : which == 1 ?
              "base642bin-orig-nopad" : which == 2 ? "base642bin-url" : "base642bin-url-nopad") : "hex2bin", txt(text, len), ig, cap, want_end);
